@@ -209,7 +209,7 @@ theorem mwBelow_zero_ok (s : Shape) (f : Nat → Nat) (stk tr) (H : ∀ n ∈ s,
   have e : mwBelow MwP.std 0 = [.dwt, .emit, .conv 3 1 1 1, .conv 3 1 2 2, .conv 3 1 3 3, .emit, .conv 3 1 3 3, .conv 3 1 2 2,
     .conv 3 1 1 1, .emit, .scale 2, .emit, .popCropSame] := by decide
   rw [e]
-  simp (disch := first | decide | (intro n hn; have := H n hn; simp [belowOk, dwtOk, dwtOut, cropTo_eq_min] at this ⊢ <;> omega))
+  simp (disch := first | decide | (intro n hn; have := H n hn; have ev := (belowOk_even_pos this).1; simp [belowOk, dwtOk_of_even ev, dwtOut_of_even ev, cropTo_eq_min] at this ⊢ <;> omega))
     only [run, stepm_conv_same, stepm_dwt, stepm_scale, stepm_popCropSame, step_emit]
   exact ⟨_, rfl⟩
 
@@ -232,13 +232,14 @@ theorem mwBelow_ok (r : Nat) : ∀ (s : Shape) (f : Nat → Nat) (stk tr), (∀ 
     have pre : ∃ tr1, run [.dwt, .emit, .conv 3 1 1 1, .conv 3 1 2 2, .conv 3 1 1 1, .emit, .padEven, .push]
         ⟨s.map f, s.map f :: stk, tr⟩ =
         .ok ⟨s.map (fun n => padEvenOut (dwtOut (f n))), s.map (fun n => padEvenOut (dwtOut (f n))) :: s.map f :: stk, tr1⟩ := by
-      simp (disch := first | decide | (intro n hn; have := H' n hn; simp [dwtOk, dwtOut, padEvenOk_iff, padEvenOut] at this ⊢ <;> omega))
+      simp (disch := first | decide | (intro n hn; have := H' n hn; simp [dwtOk_of_even this.1, dwtOut_of_even this.1, padEvenOk_iff, padEvenOut] at this ⊢ <;> omega))
         only [run, stepm_conv_same, stepm_dwt, stepm_padEven, step_emit, step_push]
       exact ⟨_, rfl⟩
     obtain ⟨tr1, h1⟩ := pre
-    obtain ⟨tr2, h2⟩ := ih s (fun n => padEvenOut (dwtOut (f n))) (s.map f :: stk) tr1 fun n hn => (H' n hn).2.2.2
+    obtain ⟨tr2, h2⟩ := ih s (fun n => padEvenOut (dwtOut (f n))) (s.map f :: stk) tr1 fun n hn => by
+      rw [dwtOut_of_even (H' n hn).1]; exact (H' n hn).2.2.2
     rw [run_append_ok h1, run_append_ok h2]
-    simp (disch := first | decide | (intro n hn; have := H' n hn; simp [dwtOut, padEvenOut, cropTo_eq_min] at this ⊢ <;> omega))
+    simp (disch := first | decide | (intro n hn; have := H' n hn; simp [dwtOut_of_even this.1, padEvenOut, cropTo_eq_min] at this ⊢ <;> omega))
       only [run, stepm_conv_same, stepm_scale, stepm_popCropSame, step_emit]
     exact ⟨_, rfl⟩
 
